@@ -329,12 +329,15 @@ def mode_seq(job, frame, col):
     units = job["units"]
     for pos, step in enumerate(job["order"]):
         if isinstance(step, dict):
-            noise(step["noise"], frame, pos)
+            try:
+                noise(step["noise"], frame, pos)
+            except Exception:   # results of these builds are not compared
+                pass
             continue
         try:
             res = run_unit(units[step], frame, pos)
         except Exception as e:  # an exception that the run alone does not raise is a difference too
-            res = {"logs": [{"exception": f"{type(e).__name__}: {e}"}]}
+            res = {"logs": [{"exception": f"{type(e).__name__}: {e}"[:300]}]}
         col.add(pos, units[step], res)
 
 
@@ -343,20 +346,33 @@ def mode_interleave(job, frame, col):
     `schedule` (a list of unit ids, one entry per command); the logs of each must equal its logs alone"""
     units = job["units"]
     engines, cmds, nxt, parts = {}, {}, {}, {}
+    failed = {}
     for pos, uid in enumerate(job["order"]):
         parts[uid] = {}
-        engines[uid] = build_engine(units[uid], frame, parts[uid], pos)
-        cmds[uid] = _commands(units[uid])
+        try:
+            engines[uid] = build_engine(units[uid], frame, parts[uid], pos)
+            cmds[uid] = _commands(units[uid])
+        except Exception as e:  # an exception that the run alone does not raise is a difference too
+            failed[uid] = f"{type(e).__name__}: {e}"[:300]
         nxt[uid] = 0
     for uid in job["schedule"]:
-        if nxt[uid] < len(cmds[uid]):
-            engines[uid].exec(cmds[uid][nxt[uid]])
+        if uid not in failed and nxt[uid] < len(cmds[uid]):
+            try:
+                engines[uid].exec(cmds[uid][nxt[uid]])
+            except Exception as e:
+                failed[uid] = f"{type(e).__name__}: {e}"[:300]
             nxt[uid] += 1
     frame.check("interleaved run")
     for pos, uid in enumerate(job["order"]):
-        for c in cmds[uid][nxt[uid]:]:
-            engines[uid].exec(c)
-        parts[uid]["logs"] = logs_of(engines[uid])
+        if uid not in failed:
+            try:
+                for c in cmds[uid][nxt[uid]:]:
+                    engines[uid].exec(c)
+                parts[uid]["logs"] = logs_of(engines[uid])
+            except Exception as e:
+                failed[uid] = f"{type(e).__name__}: {e}"[:300]
+        if uid in failed:
+            parts[uid]["logs"] = [{"exception": failed[uid]}]
         col.add(pos, units[uid], parts[uid], ctx="interleaved")
 
 
@@ -385,7 +401,7 @@ def mode_threads(job, frame, col):
             try:
                 res = run_unit(units[uid], frame if rnd.get("frames") else None)
             except Exception as e:
-                res = {"logs": [{"exception": f"{type(e).__name__}: {e}"}]}
+                res = {"logs": [{"exception": f"{type(e).__name__}: {e}"[:300]}]}
             col.add(pos, units[uid], res, ctx=f"threads={n}")
 
         if rnd["kind"] == "whole":
@@ -403,8 +419,11 @@ def mode_threads(job, frame, col):
                     except threading.BrokenBarrierError:
                         pass
                 parts[(pos, uid)] = {}
-                engines[(pos, uid)] = build_engine(units[uid], None, parts[(pos, uid)])
-                cmds[(pos, uid)] = _commands(units[uid])
+                try:
+                    engines[(pos, uid)] = build_engine(units[uid], None, parts[(pos, uid)])
+                    cmds[(pos, uid)] = _commands(units[uid])
+                except Exception as e:
+                    parts[(pos, uid)]["logs"] = [{"exception": f"{type(e).__name__}: {e}"[:300]}]
 
             with cf.ThreadPoolExecutor(max_workers=n) as ex:
                 for f in [ex.submit(create, pos, uid) for pos, uid in enumerate(order)]:
@@ -426,7 +445,7 @@ def mode_threads(job, frame, col):
                         for c in cmds[k][i:i + chunk]:
                             engines[k].exec(c)
                     except Exception as e:
-                        parts[k]["logs"] = [{"exception": f"{type(e).__name__}: {e}"}]
+                        parts[k]["logs"] = [{"exception": f"{type(e).__name__}: {e}"[:300]}]
                         continue
                     if i + chunk < len(cmds[k]):
                         work.put((k, i + chunk))
